@@ -185,6 +185,13 @@ func convertVMFunctionToTypeContext(ctx context.Context, rv reflect.Value, rt re
 		for i := 0; i < rt.NumIn(); i++ {
 			if rv.Type().IsVariadic() && i >= rv.Type().NumIn()-2 {
 				// goes into the variadic tail of the VM function, which holds plain values
+				if rt.IsVariadic() && i == rt.NumIn()-1 {
+					// the tail Go passed: its values, not the slice that carries them
+					for j := 0; j < in[i].Len(); j++ {
+						args = append(args, in[i].Index(j))
+					}
+					continue
+				}
 				args = append(args, in[i])
 				continue
 			}
